@@ -142,6 +142,29 @@ void layer_multi_case(const std::vector<std::pair<unsigned, unsigned>>& frames, 
 	st.cls(allMatch ? "layers_multi:match" : "layers_multi:refused");
 }
 
+// the data offsets count audio data only: sources whose FILE sizes add up past 2^32 because of big chunks after the data still fit
+void clm_big_files_fit_case(Stats& st) {
+	volgen::root(); volgen::mkdirs("%big/"); volgen::mkdirs("%o/");
+	std::vector<std::string> paths; std::vector<std::vector<uint8_t>> datas;
+	for (unsigned i = 0; i < 2; ++i) {
+		std::vector<uint8_t> data(100 + i * 7); for (size_t k = 0; k < data.size(); ++k) data[k] = uint8_t(k * 3 + i);
+		uint32_t junkLen = 0xA0000000u;   // 2.5 GiB chunk after the data (sparse)
+		auto h = wav_head(uint32_t(data.size())); h.insert(h.end(), data.begin(), data.end());
+		if (h.size() & 1) h.push_back(0);
+		const char tag[4] = {'J', 'U', 'N', 'K'}; h.insert(h.end(), tag, tag + 4); for (int j = 0; j < 4; ++j) h.push_back(uint8_t(junkLen >> (8 * j)));
+		uint64_t total = h.size() + uint64_t(junkLen); uint32_t riff = uint32_t(total - 8); for (int j = 0; j < 4; ++j) h[4 + j] = uint8_t(riff >> (8 * j));
+		std::string p = "%big/fit" + std::to_string(i) + ".wav"; make_sparse(p, total, h.data(), h.size()); paths.push_back(p); datas.push_back(data);
+	}
+	std::string out = "%o/fit.clm"; remove(out.c_str()); std::string what;
+	Out o = guarded([&] { Archive::ClmFile::CreateArchive(out, paths); }, &what);
+	for (auto& q : paths) remove(q.c_str());
+	V_CHECK(o == Out::Ok, "CLM creation refused two small tracks whose source FILES are 2.5 GiB each (big chunk after the data): " << what);
+	{ Archive::ClmFile c(out); V_CHECK(c.GetCount() == 2, "count");
+	  for (size_t i = 0; i < 2; ++i) { auto sr = c.OpenStream(i); std::vector<uint8_t> g(size_t(sr->Length())); sr->Read(g.data(), g.size()); V_CHECK(g == datas[i], "track " << i << " of the archive built from multi-GiB source files holds other bytes (" << g.size() << ")"); } }
+	remove(out.c_str());
+	st.cls("clm_big_sources_fit"); st.nt(0xF17);
+}
+
 void clm_name_case(unsigned len, Stats& st) {
 	volgen::root(); volgen::mkdirs("%big/"); volgen::mkdirs("%o/");
 	std::string p = "%big/" + std::string(len, 'k') + ".wav"; auto h = wav_head(4); h.insert(h.end(), {1, 2, 3, 4}); write_file(p, h);
@@ -245,6 +268,7 @@ void run_sweep(Stats& st) {
 		p.files[1].second = uint64_t(int64_t(0x100000000ull) + delta) - off2 - 8;
 		vol_refusal_case(p, delta & 1, st, "offset_exactly_at_2^32");
 	}
+	if (sw("clm_big_sources_fit")) clm_big_files_fit_case(st);
 	// CLM: data offsets crossing 2^32
 	if (sw("clm_cross", 0)) clm_refusal_case({0x60000000u, 0x60000000u, 0x60000000u}, st, "offset_crossing");
 	if (sw("clm_cross", 1)) clm_refusal_case({0xFFFFFF00u, 0x100u}, st, "offset_crossing");
